@@ -687,14 +687,422 @@ theorem c17_shm_api_nonvacuous :
     exact this
 
 
-/-! ## JobInstance ↦ JSON ↦ JobInstance (shape model, Model/Json.lean)
 
-Not a statement about pydantic / orjson (those are sampled through the real code): it says that
-the key layout `job.dict()` uses — compared with the real dump on every run — loses nothing, for
-jobs of any size, with positional and keyword edges, multi-output tasks, serdes and external outputs. -/
+/-! ## The datagram transport: encode, send, receive into a buffer, decode
+
+`wire t limit m` is what the receiving side decodes when `m` is sent (Model/Codec.lean). The clause "rejected when
+encoding, never silently truncated" has to hold END TO END: the lenient decoder (`decodeVal` accepts short input, as
+`deser_str` does) is harmless only if the transport never hands it a shortened datagram. -/
+
+namespace Aux
+
+/-- whenever `api.ser` produces bytes, `api.deser` of exactly these bytes is the message (no domain hypothesis: the
+encoder succeeding is the hypothesis) -/
+theorem encode_ok_decode (t : Table) (hok : SchemaOK t = true) (m : Msg) (bs : Bytes)
+    (h : encode t m = .ok bs) : decode t bs = .ok m := by
+  obtain ⟨hwf, _hcls, htag1, _htag2, hlen1, _hex, _hall, _, _⟩ := schemaOK_parts hok
+  unfold encode at h
+  split at h
+  · cases h
+  · rename_i tag htag
+    split at h
+    · cases h
+    · rename_i s hsch
+      split at h
+      · cases h
+      · rename_i body hbody
+        cases h
+        have hs : s ∈ t.msgs := List.mem_of_find?_eq_some hsch
+        have hdm : InDomainMsg s m.vals := by
+          by_cases hd : InDomainMsg s m.vals
+          · exact hd
+          · obtain ⟨e, he⟩ := c17_rejects s m.vals hd
+            rw [he] at hbody; cases hbody
+        obtain ⟨body', hbody', hdec⟩ := c17_roundtrip_generic s m.vals (hwf s hs) hdm []
+        rw [hbody] at hbody'
+        cases hbody'
+        simp only [List.append_nil] at hdec
+        have hmem : (tag, m.cls) ∈ t.tags := by
+          unfold Table.c2b at htag
+          cases hf : t.tags.find? (fun p => p.2 == m.cls) with
+          | none => simp [hf] at htag
+          | some p =>
+            simp [hf] at htag
+            have h1 := List.find?_some hf
+            have h2 := List.mem_of_find?_eq_some hf
+            simp at h1
+            cases p with
+            | mk a b => simp at htag h1; subst htag; subst h1; exact h2
+        have htl : tag.length = 1 := hlen1 _ hmem
+        have hb2c : t.b2c tag = some m.cls := by
+          unfold Table.b2c
+          rw [find_fst_of_mem htag1 hmem]; rfl
+        simp only [decode, take_append_len _ _ _ htl, drop_append_len _ _ _ htl, hb2c, hsch, hdec]
+
+end Aux
+
+/-- **Never altered on the wire.** For every table satisfying `SchemaOK`, every receive buffer that holds a whole
+datagram (`maxDatagram ≤ limit`) and EVERY message `m` (in the domain or not, of any size): if the receiving side decodes
+anything at all, it decodes `m`. (Every other outcome is an error raised at the sender -- `api.ser` or `sendto` -- or, never
+under these hypotheses, in the decoder.) -/
+theorem c17_wire_never_alters (t : Table) (hok : SchemaOK t = true) (limit : Nat) (hl : maxDatagram ≤ limit)
+    (m m' : Msg) (h : wire t limit m = .ok m') : m' = m := by
+  unfold wire at h
+  cases henc : encode t m with
+  | error e => simp [henc] at h
+  | ok bs =>
+    simp only [henc] at h
+    by_cases hfit : bs.length ≤ maxDatagram
+    · have htake : bs.take limit = bs := List.take_of_length_le (Nat.le_trans hfit hl)
+      simp only [transport, hfit, if_true, htake, Aux.encode_ok_decode t hok m bs henc] at h
+      cases h; rfl
+    · simp [transport, hfit] at h
+
+/-- **Delivered whole.** Under the same hypotheses a message of the domain whose encoding fits one datagram arrives. -/
+theorem c17_wire_roundtrip (t : Table) (hok : SchemaOK t = true) (limit : Nat) (hl : maxDatagram ≤ limit)
+    (m : Msg) (hd : InDomain t m) :
+    ∃ bs, encode t m = .ok bs ∧ (bs.length ≤ maxDatagram → wire t limit m = .ok m) := by
+  obtain ⟨bs, henc, hdec⟩ := c17_roundtrip_table t hok m hd
+  refine ⟨bs, henc, fun hfit => ?_⟩
+  have htake : bs.take limit = bs := List.take_of_length_le (Nat.le_trans hfit hl)
+  simp [wire, henc, transport, hfit, htake, hdec]
+
+/-- **Too long for a datagram: refused at the sender**, whatever the receive buffer. -/
+theorem c17_wire_oversize_rejected (t : Table) (limit : Nat) (m : Msg) (bs : Bytes) (henc : encode t m = .ok bs)
+    (hbig : maxDatagram < bs.length) : wire t limit m = .error .msgsize := by
+  have : ¬ bs.length ≤ maxDatagram := Nat.not_le.mpr hbig
+  simp [wire, henc, transport, this]
+
+/-- **A shorter buffer breaks it** (the pinned tree received into 1024 bytes): `GetRequest` with a key of 1020
+characters is in the domain, is accepted by encoder and kernel, and the server decodes a DIFFERENT request (key of 1019
+characters) without any error -- the hypothesis `maxDatagram ≤ limit` of `c17_wire_never_alters` cannot be dropped. -/
+theorem c17_wire_small_buffer_fails :
+    ¬ ∀ (limit : Nat) (m m' : Msg), wire Gen.shmApi limit m = .ok m' → m' = m := by
+  intro h
+  have hw : wire Gen.shmApi 1024 ⟨"GetRequest", [.str (List.replicate 1020 107)]⟩
+      = .ok ⟨"GetRequest", [.str (List.replicate 1019 107)]⟩ := by decide +kernel
+  have := h 1024 _ _ hw
+  revert this
+  decide +kernel
+
+/-- The receive buffers of shm/server.py (`recvfrom`) and shm/client.py (`recv`), read from the source on every run, hold
+a whole datagram. (False on the pinned tree: both were 1024; see known/aud17.json.) -/
+theorem c17_shm_recv_buffers_ok : maxDatagram ≤ Gen.shmServerRecv ∧ maxDatagram ≤ Gen.shmClientRecv := by decide
+
+/-- **cascade.shm end to end, requests** (client `send` -> server `recvfrom`): nothing the server decodes differs from
+what the client sent. -/
+theorem c17_shm_request_never_alters (m m' : Msg) (h : wire Gen.shmApi Gen.shmServerRecv m = .ok m') : m' = m :=
+  c17_wire_never_alters Gen.shmApi c17_schema_ok _ c17_shm_recv_buffers_ok.1 m m' h
+
+/-- **cascade.shm end to end, responses** (server `sendto` -> client `recv`). -/
+theorem c17_shm_response_never_alters (m m' : Msg) (h : wire Gen.shmApi Gen.shmClientRecv m = .ok m') : m' = m :=
+  c17_wire_never_alters Gen.shmApi c17_schema_ok _ c17_shm_recv_buffers_ok.2 m m' h
+
+-- non-vacuity: a request with a key of 2000 characters (beyond the old buffer) arrives whole with the buffer of the source
+example : wire Gen.shmApi Gen.shmServerRecv ⟨"GetRequest", [.str (List.replicate 2000 107)]⟩
+    = .ok ⟨"GetRequest", [.str (List.replicate 2000 107)]⟩ := by decide +kernel
+
+
+/-! ## The JSON encodings (Model/Json.lean): values of type `Any`, job instances, gateway messages
+
+`encAny` / `decAny` model `orjson.dumps` / `orjson.loads` on the Python values a field of type `Any` can hold; the dump
+and load functions model the key layout of `model_dump()` / the pydantic constructors. The model's text (`render`) is
+compared byte for byte with what the real code writes on every run. What is proved: JSON-native values are accepted and
+round-trip; whatever the encoder accepts comes back unchanged EXCEPT for three classes (tuple, non-finite float, natively
+serialised scalar) that orjson alters silently -- the full clause fails on them (`*_full_fails`, known findings); the values
+the encoder refuses are characterised exactly. -/
 
 namespace JsonAux
 open EkwVerif.Json
+
+theorem encInt_ok {n : Int} {j : J} (h : encInt n = .ok j) : j = .int n := by
+  unfold encInt at h
+  split at h
+  · cases h; rfl
+  · cases h
+
+theorem encInt_of_range {n : Int} (h : inInt64Range n = true) : encInt n = .ok (.int n) := by
+  simp [encInt, h]
+
+mutual
+theorem decAny_encAny : ∀ (v : PyVal) (j : J), Lossless v = true → encAny v = .ok j → decAny j = v
+  | .none, j, _, h => by simp only [encAny] at h; cases h; rfl
+  | .bool b, j, _, h => by simp only [encAny] at h; cases h; rfl
+  | .int n, j, _, h => by simp only [encAny] at h; rw [encInt_ok h]; rfl
+  | .float f, j, _, h => by simp only [encAny] at h; cases h; rfl
+  | .nonfinite k, j, hl, _ => by simp [Lossless] at hl
+  | .str s, j, _, h => by simp only [encAny] at h; cases h; rfl
+  | .bytes b, j, _, h => by simp only [encAny] at h; cases h
+  | .list l, j, hl, h => by
+    simp only [encAny] at h
+    split at h
+    · rename_i js hjs
+      cases h
+      simp only [Lossless] at hl
+      simp only [decAny, decList_encList l js hl hjs]
+    · cases h
+  | .tuple l, j, hl, _ => by simp [Lossless] at hl
+  | .set l, j, _, h => by simp only [encAny] at h; cases h
+  | .frozenset l, j, _, h => by simp only [encAny] at h; cases h
+  | .dict kvs, j, hl, h => by
+    simp only [encAny] at h
+    split at h
+    · rename_i o ho
+      cases h
+      simp only [Lossless] at hl
+      simp only [decAny, decPairs_encPairs kvs o hl ho]
+    · cases h
+  | .native c t, j, hl, _ => by simp [Lossless] at hl
+  | .opaque c, j, _, h => by simp only [encAny] at h; cases h
+
+theorem decList_encList : ∀ (l : List PyVal) (js : List J), LosslessList l = true → encList l = .ok js → decList js = l
+  | [], js, _, h => by simp only [encList] at h; cases h; rfl
+  | v :: vs, js, hl, h => by
+    simp only [encList] at h
+    split at h
+    · cases h
+    · rename_i j hj
+      split at h
+      · cases h
+      · rename_i js' hjs'
+        cases h
+        simp only [LosslessList, Bool.and_eq_true] at hl
+        simp only [decList, decAny_encAny v j hl.1 hj, decList_encList vs js' hl.2 hjs']
+
+theorem decPairs_encPairs : ∀ (kvs : List (PyVal × PyVal)) (o : List (String × J)),
+    LosslessPairs kvs = true → encPairs kvs = .ok o → decPairs o = kvs
+  | [], o, _, h => by simp only [encPairs] at h; cases h; rfl
+  | (k, v) :: rest, o, hl, h => by
+    cases k with
+    | str s =>
+      simp only [encPairs] at h
+      split at h
+      · cases h
+      · rename_i j hj
+        split at h
+        · cases h
+        · rename_i o' ho'
+          cases h
+          simp only [LosslessPairs, Bool.and_eq_true] at hl
+          simp only [decPairs, decAny_encAny v j hl.1.2 hj, decPairs_encPairs rest o' hl.2 ho']
+    | _ => simp only [encPairs] at h; cases h
+end
+
+mutual
+theorem native_lossless : ∀ (v : PyVal), Native v = true → Lossless v = true
+  | .none, _ => rfl
+  | .bool _, _ => rfl
+  | .int _, _ => rfl
+  | .float _, _ => rfl
+  | .nonfinite _, h => by simp [Native] at h
+  | .str _, _ => rfl
+  | .bytes _, _ => rfl
+  | .list l, h => by simp only [Native] at h; simp only [Lossless]; exact nativeList_lossless l h
+  | .tuple _, h => by simp [Native] at h
+  | .set _, h => by simp [Native] at h
+  | .frozenset _, h => by simp [Native] at h
+  | .dict kvs, h => by simp only [Native] at h; simp only [Lossless]; exact nativePairs_lossless kvs h
+  | .native _ _, h => by simp [Native] at h
+  | .opaque _, _ => rfl
+
+theorem nativeList_lossless : ∀ (l : List PyVal), NativeList l = true → LosslessList l = true
+  | [], _ => rfl
+  | v :: vs, h => by
+    simp only [NativeList, Bool.and_eq_true] at h
+    simp only [LosslessList, Bool.and_eq_true]
+    exact ⟨native_lossless v h.1, nativeList_lossless vs h.2⟩
+
+theorem nativePairs_lossless : ∀ (kvs : List (PyVal × PyVal)), NativePairs kvs = true → LosslessPairs kvs = true
+  | [], _ => rfl
+  | (k, v) :: rest, h => by
+    cases k with
+    | str s =>
+      simp only [NativePairs, Bool.and_eq_true] at h
+      simp only [LosslessPairs, Bool.and_eq_true]
+      exact ⟨⟨rfl, native_lossless v h.1⟩, nativePairs_lossless rest h.2⟩
+    | _ => simp [NativePairs] at h
+end
+
+mutual
+/-- the encoder fails exactly on the values with a refused node -/
+theorem encAny_error_iff : ∀ (v : PyVal), (∃ e, encAny v = .error e) ↔ Refused v = true
+  | .none => by simp [encAny, Refused]
+  | .bool _ => by simp [encAny, Refused]
+  | .int n => by
+    simp only [encAny, encInt, Refused]
+    cases inInt64Range n <;> simp
+  | .float _ => by simp [encAny, Refused]
+  | .nonfinite _ => by simp [encAny, Refused]
+  | .str _ => by simp [encAny, Refused]
+  | .bytes _ => by simp [encAny, Refused]
+  | .list l => by
+    have ih := encList_error_iff l
+    simp only [encAny, Refused]
+    cases h : encList l with
+    | ok js => simp [h] at ih ⊢; exact ih
+    | error e => simp [h] at ih ⊢; exact ih
+  | .tuple l => by
+    have ih := encList_error_iff l
+    simp only [encAny, Refused]
+    cases h : encList l with
+    | ok js => simp [h] at ih ⊢; exact ih
+    | error e => simp [h] at ih ⊢; exact ih
+  | .set _ => by simp [encAny, Refused]
+  | .frozenset _ => by simp [encAny, Refused]
+  | .dict kvs => by
+    have ih := encPairs_error_iff kvs
+    simp only [encAny, Refused]
+    cases h : encPairs kvs with
+    | ok js => simp [h] at ih ⊢; exact ih
+    | error e => simp [h] at ih ⊢; exact ih
+  | .native _ _ => by simp [encAny, Refused]
+  | .opaque _ => by simp [encAny, Refused]
+
+theorem encList_error_iff : ∀ (l : List PyVal), (∃ e, encList l = .error e) ↔ RefusedList l = true
+  | [] => by simp [encList, RefusedList]
+  | v :: vs => by
+    have ih1 := encAny_error_iff v
+    have ih2 := encList_error_iff vs
+    simp only [encList, RefusedList, Bool.or_eq_true]
+    cases h1 : encAny v with
+    | error e => simp [h1] at ih1 ⊢; exact Or.inl ih1
+    | ok j =>
+      simp only [h1] at ih1 ⊢
+      have hv : Refused v = false := by
+        cases hr : Refused v with
+        | false => rfl
+        | true => have := ih1.mpr hr; simp at this
+      cases h2 : encList vs with
+      | error e => simp [h2] at ih2 ⊢; exact Or.inr ih2
+      | ok js =>
+        simp only [h2] at ih2 ⊢
+        have hvs : RefusedList vs = false := by
+          cases hr : RefusedList vs with
+          | false => rfl
+          | true => have := ih2.mpr hr; simp at this
+        simp [hv, hvs]
+
+theorem encPairs_error_iff : ∀ (kvs : List (PyVal × PyVal)), (∃ e, encPairs kvs = .error e) ↔ RefusedPairs kvs = true
+  | [] => by simp [encPairs, RefusedPairs]
+  | (k, v) :: rest => by
+    cases k with
+    | str s =>
+      have ih1 := encAny_error_iff v
+      have ih2 := encPairs_error_iff rest
+      simp only [encPairs, RefusedPairs, Bool.or_eq_true]
+      cases h1 : encAny v with
+      | error e => simp [h1] at ih1 ⊢; exact Or.inl ih1
+      | ok j =>
+        simp only [h1] at ih1 ⊢
+        have hv : Refused v = false := by
+          cases hr : Refused v with
+          | false => rfl
+          | true => have := ih1.mpr hr; simp at this
+        cases h2 : encPairs rest with
+        | error e => simp [h2] at ih2 ⊢; exact Or.inr ih2
+        | ok js =>
+          simp only [h2] at ih2 ⊢
+          have hvs : RefusedPairs rest = false := by
+            cases hr : RefusedPairs rest with
+            | false => rfl
+            | true => have := ih2.mpr hr; simp at this
+          simp [hv, hvs]
+    | _ => simp [encPairs, RefusedPairs]
+end
+
+mutual
+theorem native_not_refused : ∀ (v : PyVal), Native v = true → Refused v = false
+  | .none, _ => rfl
+  | .bool _, _ => rfl
+  | .int n, h => by simp only [Native] at h; simp [Refused, h]
+  | .float _, _ => rfl
+  | .nonfinite _, _ => rfl
+  | .str _, _ => rfl
+  | .bytes _, h => by simp [Native] at h
+  | .list l, h => by simp only [Native] at h; simp only [Refused]; exact nativeList_not_refused l h
+  | .tuple _, h => by simp [Native] at h
+  | .set _, h => by simp [Native] at h
+  | .frozenset _, h => by simp [Native] at h
+  | .dict kvs, h => by simp only [Native] at h; simp only [Refused]; exact nativePairs_not_refused kvs h
+  | .native _ _, _ => rfl
+  | .opaque _, h => by simp [Native] at h
+
+theorem nativeList_not_refused : ∀ (l : List PyVal), NativeList l = true → RefusedList l = false
+  | [], _ => rfl
+  | v :: vs, h => by
+    simp only [NativeList, Bool.and_eq_true] at h
+    simp [RefusedList, native_not_refused v h.1, nativeList_not_refused vs h.2]
+
+theorem nativePairs_not_refused : ∀ (kvs : List (PyVal × PyVal)), NativePairs kvs = true → RefusedPairs kvs = false
+  | [], _ => rfl
+  | (k, v) :: rest, h => by
+    cases k with
+    | str s =>
+      simp only [NativePairs, Bool.and_eq_true] at h
+      simp [RefusedPairs, native_not_refused v h.1, nativePairs_not_refused rest h.2]
+    | _ => simp [NativePairs] at h
+end
+
+theorem encAny_of_native (v : PyVal) (h : Native v = true) : ∃ j, encAny v = .ok j := by
+  cases henc : encAny v with
+  | ok j => exact ⟨j, rfl⟩
+  | error e =>
+    have := (encAny_error_iff v).mp ⟨e, henc⟩
+    rw [native_not_refused v h] at this
+    cases this
+
+/-! #### str-keyed mappings of Any values, tasks, edges, jobs -/
+
+theorem decStatics_encStatics : ∀ (kvs : List (String × PyVal)) (o : List (String × J)),
+    LosslessStatics kvs = true → encStatics kvs = .ok o → decStatics o = kvs
+  | [], o, _, h => by simp only [encStatics] at h; cases h; rfl
+  | (k, v) :: rest, o, hl, h => by
+    simp only [encStatics] at h
+    split at h
+    · cases h
+    · rename_i j hj
+      split at h
+      · cases h
+      · rename_i o' ho'
+        cases h
+        simp only [LosslessStatics, List.all_cons, Bool.and_eq_true] at hl
+        simp only [decStatics, decAny_encAny v j hl.1 hj, decStatics_encStatics rest o' hl.2 ho']
+
+theorem encStatics_of_native : ∀ (kvs : List (String × PyVal)), NativeStatics kvs = true → ∃ o, encStatics kvs = .ok o
+  | [], _ => ⟨[], rfl⟩
+  | (k, v) :: rest, h => by
+    simp only [NativeStatics, List.all_cons, Bool.and_eq_true] at h
+    obtain ⟨j, hj⟩ := encAny_of_native v h.1
+    obtain ⟨o, ho⟩ := encStatics_of_native rest h.2
+    exact ⟨(k, j) :: o, by simp [encStatics, hj, ho]⟩
+
+theorem nativeStatics_lossless (kvs : List (String × PyVal)) (h : NativeStatics kvs = true) : LosslessStatics kvs = true := by
+  simp only [NativeStatics, LosslessStatics, List.all_eq_true] at h ⊢
+  exact fun p hp => native_lossless p.2 (h p hp)
+
+theorem encStatics_error_iff : ∀ (kvs : List (String × PyVal)), (∃ e, encStatics kvs = .error e) ↔ RefusedStatics kvs = true
+  | [] => by simp [encStatics, RefusedStatics]
+  | (k, v) :: rest => by
+    have ih1 := encAny_error_iff v
+    have ih2 := encStatics_error_iff rest
+    simp only [RefusedStatics] at ih2
+    simp only [encStatics, RefusedStatics, List.any_cons, Bool.or_eq_true]
+    cases h1 : encAny v with
+    | error e => simp [h1] at ih1 ⊢; exact Or.inl ih1
+    | ok j =>
+      simp only [h1] at ih1 ⊢
+      have hv : Refused v = false := by
+        cases hr : Refused v with
+        | false => rfl
+        | true => have := ih1.mpr hr; simp at this
+      cases h2 : encStatics rest with
+      | error e => simp [h2] at ih2 ⊢; exact Or.inr ih2
+      | ok o =>
+        simp only [h2] at ih2 ⊢
+        simp only [hv, Bool.false_eq_true, false_or]
+        constructor
+        · intro ⟨e, he⟩; cases he
+        · intro hr; have := ih2.mpr hr; simp at this
 
 theorem allM_map {α β : Type} (f : α → β) (g : β → Option α) (h : ∀ a, g (f a) = some a) :
     ∀ l : List α, allM g (l.map f) = some l
@@ -707,12 +1115,20 @@ theorem loadDs_dumpDs (d : DatasetId) : loadDs (dumpDs d) = some d := by
 theorem asOptStr_optStr (o : Option String) : asOptStr (optStr o) = some o := by
   cases o <;> rfl
 
-theorem asOptInt_optInt (o : Option Int) : asOptInt (optInt o) = some o := by
-  cases o <;> rfl
+theorem encOptInt_ok {o : Option Int} {j : J} (h : encOptInt o = .ok j) : asOptInt j = some o := by
+  cases o with
+  | none => simp only [encOptInt] at h; cases h; rfl
+  | some n => simp only [encOptInt] at h; rw [encInt_ok h]; rfl
 
-theorem loadEdge_dumpEdge (e : Edge) : loadEdge (dumpEdge e) = some e := by
-  cases e
-  simp [loadEdge, dumpEdge, asObj, field, asStr, loadDs_dumpDs, asOptStr_optStr, asOptInt_optInt]
+theorem loadEdge_dumpEdge (e : Edge) (j : J) (h : dumpEdge e = .ok j) : loadEdge j = some e := by
+  cases e with
+  | mk src sink kw ps =>
+  simp only [dumpEdge] at h
+  split at h
+  · cases h
+  · rename_i pj hps
+    cases h
+    simp [loadEdge, asObj, field, asStr, loadDs_dumpDs, asOptStr_optStr, encOptInt_ok hps]
 
 theorem loadStrMap_dump (m : List (String × String)) : loadStrMap (dumpStrMap m) = some m := by
   simp only [loadStrMap, dumpStrMap, asObj]
@@ -723,33 +1139,387 @@ theorem loadDef_dumpDef (d : TaskDef) : loadDef (dumpDef d) = some d := by
   simp [loadDef, dumpDef, asObj, field, asStr, asArr, asBool, asOptStr_optStr, loadStrMap_dump,
     allM_map J.str asStr (fun _ => rfl)]
 
-theorem loadTask_dumpTask (t : TaskInst) : loadTask (dumpTask t) = some t := by
-  cases t
-  simp [loadTask, dumpTask, asObj, field, loadDef_dumpDef]
+theorem loadTask_dumpTask (t : TaskInst) (j : J) (hl : TaskLossless t = true) (h : dumpTask t = .ok j) :
+    loadTask j = some t := by
+  cases t with
+  | mk d kw ps =>
+  simp only [TaskLossless, Bool.and_eq_true] at hl
+  simp only [dumpTask] at h
+  split at h
+  · cases h
+  · rename_i kwj hkw
+    split at h
+    · cases h
+    · rename_i psj hps
+      cases h
+      simp [loadTask, asObj, field, loadDef_dumpDef, decStatics_encStatics kw kwj hl.1 hkw,
+        decStatics_encStatics ps psj hl.2 hps]
+
+theorem dumpTask_of_native (t : TaskInst) (h : TaskNative t = true) : ∃ j, dumpTask t = .ok j := by
+  simp only [TaskNative, Bool.and_eq_true] at h
+  obtain ⟨kw, hkw⟩ := encStatics_of_native t.kw h.1
+  obtain ⟨ps, hps⟩ := encStatics_of_native t.ps h.2
+  exact ⟨_, by simp only [dumpTask, hkw, hps]; rfl⟩
+
+theorem loadTasks_dumpTasks : ∀ (ts : List (String × TaskInst)) (o : List (String × J)),
+    ts.all (fun p => TaskLossless p.2) = true → dumpTasks ts = .ok o →
+    allM (fun p : String × J => (loadTask p.2).map (fun t => (p.1, t))) o = some ts
+  | [], o, _, h => by simp only [dumpTasks] at h; cases h; rfl
+  | (k, t) :: rest, o, hl, h => by
+    simp only [dumpTasks] at h
+    split at h
+    · cases h
+    · rename_i j hj
+      split at h
+      · cases h
+      · rename_i o' ho'
+        cases h
+        simp only [List.all_cons, Bool.and_eq_true] at hl
+        simp [allM, loadTask_dumpTask t j hl.1 hj, loadTasks_dumpTasks rest o' hl.2 ho']
+
+theorem dumpTasks_of_native : ∀ (ts : List (String × TaskInst)), ts.all (fun p => TaskNative p.2) = true →
+    ∃ o, dumpTasks ts = .ok o
+  | [], _ => ⟨[], rfl⟩
+  | (k, t) :: rest, h => by
+    simp only [List.all_cons, Bool.and_eq_true] at h
+    obtain ⟨j, hj⟩ := dumpTask_of_native t h.1
+    obtain ⟨o, ho⟩ := dumpTasks_of_native rest h.2
+    exact ⟨(k, j) :: o, by simp [dumpTasks, hj, ho]⟩
+
+theorem loadEdges_dumpEdges : ∀ (es : List Edge) (js : List J), dumpEdges es = .ok js → allM loadEdge js = some es
+  | [], js, h => by simp only [dumpEdges] at h; cases h; rfl
+  | e :: rest, js, h => by
+    simp only [dumpEdges] at h
+    split at h
+    · cases h
+    · rename_i j hj
+      split at h
+      · cases h
+      · rename_i js' hjs'
+        cases h
+        simp [allM, loadEdge_dumpEdge e j hj, loadEdges_dumpEdges rest js' hjs']
+
+theorem dumpEdges_of_range : ∀ (es : List Edge), es.all EdgeInRange = true → ∃ js, dumpEdges es = .ok js
+  | [], _ => ⟨[], rfl⟩
+  | e :: rest, h => by
+    simp only [List.all_cons, Bool.and_eq_true] at h
+    obtain ⟨js, hjs⟩ := dumpEdges_of_range rest h.2
+    have : ∃ j, dumpEdge e = .ok j := by
+      cases e with
+      | mk src sink kw ps =>
+      cases ps with
+      | none => exact ⟨_, by simp only [dumpEdge, encOptInt]; rfl⟩
+      | some n =>
+        have hr : inInt64Range n = true := by simpa [EdgeInRange] using h.1
+        exact ⟨_, by simp only [dumpEdge, encOptInt, encInt_of_range hr]; rfl⟩
+    obtain ⟨j, hj⟩ := this
+    exact ⟨j :: js, by simp [dumpEdges, hj, hjs]⟩
 
 end JsonAux
 
-open EkwVerif.Json JsonAux in
-/-- Reading back the JSON form of a job instance returns the instance: every task (definition with
-its output schema of any size, static keyword and positional inputs as arbitrary JSON trees), every
-edge (keyword or positional), every serde pair and every external output. -/
-theorem c17_job_json_roundtrip (j : JobInst) : loadJob (dumpJob j) = some j := by
+open EkwVerif.Json JsonAux
+
+/-- **Values of type `Any`, in the domain**: a JSON-native value (None, bool, 64-bit int, finite float, str, lists and
+str-keyed dicts of such, nested to any depth) is accepted by `orjson.dumps` and `orjson.loads` returns it. -/
+theorem c17_any_roundtrip (v : PyVal) (h : Native v = true) : ∃ j, encAny v = .ok j ∧ decAny j = v := by
+  obtain ⟨j, hj⟩ := encAny_of_native v h
+  exact ⟨j, hj, decAny_encAny v j (native_lossless v h) hj⟩
+
+/-- **Never altered, except ...**: whatever value the encoder accepts comes back unchanged, PROVIDED no node of it is a
+tuple, a non-finite float or a natively serialised scalar (datetime, date, time, UUID) -- `Lossless`, decidable. The
+hypothesis cannot be dropped: `c17_any_full_fails`. -/
+theorem c17_any_never_alters_partial (v : PyVal) (j : J) (hl : Lossless v = true) (h : encAny v = .ok j) :
+    decAny j = v := decAny_encAny v j hl h
+
+/-- The full clause FAILS for `Any` values on the code as it is: `(1, 2)` is accepted and comes back as `[1, 2]`,
+`inf` comes back as `None`, a datetime as its ISO string (each replayed on the real code on every run: known findings). -/
+theorem c17_any_full_fails : ¬ ∀ (v : PyVal) (j : J), encAny v = .ok j → decAny j = v := by
+  intro h
+  have := h (.tuple [.int 1, .int 2]) (.arr [.int 1, .int 2]) rfl
+  simp [decAny, decList] at this
+
+example : encAny (.nonfinite .inf) = .ok .null ∧ decAny .null = .none := ⟨rfl, rfl⟩
+example : encAny (.native "datetime" "2020-01-02T03:04:05") = .ok (.str "2020-01-02T03:04:05") := rfl
+
+/-- **Rejected when encoding**: the encoder fails EXACTLY on the values that have -- before anything else fails -- a node
+of a class JSON has no form for and orjson does not convert: bytes, set, frozenset, an unknown class, an integer beyond
+64 bit, a mapping key that is no string. -/
+theorem c17_any_rejects_iff (v : PyVal) : (∃ e, encAny v = .error e) ↔ Refused v = true := encAny_error_iff v
+
+example : encAny (.dict [(.str "a", .list [.bytes [97, 98]])]) = .error .type := rfl
+example : encAny (.dict [(.int 1, .str "a")]) = .error .key := rfl
+example : encAny (.int (2 ^ 64)) = .error .intRange := by simp [encAny, encInt, inInt64Range]
+example : encAny (.int (2 ^ 64 - 1)) = .ok (.int (2 ^ 64 - 1)) := by simp [encAny, encInt, inInt64Range]
+
+/-- **Job instance, in the domain**: a job whose static inputs are JSON-native (and whose positional edge indices fit 64
+bit) is written, and reading the document back returns the job: every task (definition with its output schema of any size,
+static keyword and positional inputs), every edge (keyword or positional), every serde pair, every external output. -/
+theorem c17_job_json_roundtrip (j : JobInst) (h : JobNative j = true) :
+    ∃ d, dumpJob j = .ok d ∧ loadJob d = some j := by
   cases j with
   | mk tasks edges serdes ext =>
-  have h1 := allM_map (fun p : String × TaskInst => (p.1, dumpTask p.2))
-    (fun p : String × J => (loadTask p.2).map (fun t => (p.1, t))) (fun a => by simp [loadTask_dumpTask]) tasks
-  have h2 := allM_map dumpEdge loadEdge loadEdge_dumpEdge edges
+  simp only [JobNative, Bool.and_eq_true] at h
+  obtain ⟨ts, hts⟩ := dumpTasks_of_native tasks h.1
+  obtain ⟨es, hes⟩ := dumpEdges_of_range edges h.2
+  have hl : tasks.all (fun p => TaskLossless p.2) = true := by
+    simp only [List.all_eq_true] at h ⊢
+    intro p hp
+    have := h.1 p hp
+    simp only [TaskNative, TaskLossless, Bool.and_eq_true] at this ⊢
+    exact ⟨nativeStatics_lossless _ this.1, nativeStatics_lossless _ this.2⟩
+  have h1 := loadTasks_dumpTasks tasks ts hl hts
+  have h2 := loadEdges_dumpEdges edges es hes
   have h3 := allM_map (fun p : String × (String × String) => (p.1, J.arr [.str p.2.1, .str p.2.2]))
     (fun p : String × J => (loadPair p.2).map (fun t => (p.1, t))) (fun a => by simp [loadPair]) serdes
   have h4 := allM_map dumpDs loadDs loadDs_dumpDs ext
-  simp [loadJob, dumpJob, asObj, asArr, field, h1, h2, h3, h4]
+  refine ⟨_, by simp only [dumpJob, hts, hes]; rfl, ?_⟩
+  simp [loadJob, asObj, asArr, field, h1, h2, h3, h4]
+
+/-- **Job instance, never altered except ...**: whenever the writer produces a document, the reader returns the very job,
+provided no static input contains a tuple, a non-finite float or a natively serialised scalar (`JobLossless`). -/
+theorem c17_job_json_never_alters_partial (j : JobInst) (d : J) (hl : JobLossless j = true) (h : dumpJob j = .ok d) :
+    loadJob d = some j := by
+  cases j with
+  | mk tasks edges serdes ext =>
+  simp only [dumpJob] at h
+  split at h
+  · cases h
+  · rename_i ts hts
+    split at h
+    · cases h
+    · rename_i es hes
+      cases h
+      have h1 := loadTasks_dumpTasks tasks ts hl hts
+      have h2 := loadEdges_dumpEdges edges es hes
+      have h3 := allM_map (fun p : String × (String × String) => (p.1, J.arr [.str p.2.1, .str p.2.2]))
+        (fun p : String × J => (loadPair p.2).map (fun t => (p.1, t))) (fun a => by simp [loadPair]) serdes
+      have h4 := allM_map dumpDs loadDs loadDs_dumpDs ext
+      simp [loadJob, asObj, asArr, field, h1, h2, h3, h4]
+
+/-- a job with one task whose keyword input `x` is the tuple `(1, 2)` -/
+def tupleJob : JobInst :=
+  { tasks := [("t", { defn := ⟨"m.f", none, [], [], [("o", "int")], false⟩, kw := [("x", .tuple [.int 1, .int 2])], ps := [] })],
+    edges := [], serdes := [], ext := [] }
+
+/-- The full clause FAILS for job instances: the job above is written without error and read back with `x = [1, 2]`. -/
+theorem c17_job_json_full_fails : ¬ ∀ (j : JobInst) (d : J), dumpJob j = .ok d → loadJob d = some j := by
+  intro h
+  obtain ⟨d, hd⟩ : ∃ d, dumpJob tupleJob = .ok d := ⟨_, rfl⟩
+  have h2 := h tupleJob d hd
+  have h3 : dumpJob tupleJob = .ok d := hd
+  simp only [tupleJob, dumpJob, dumpTasks, dumpTask, encStatics, encAny, encList, encInt, dumpEdges] at h3
+  have hr : inInt64Range 1 = true ∧ inInt64Range 2 = true := by decide
+  simp only [hr.1, hr.2, if_true] at h3
+  cases h3
+  simp [loadJob, tupleJob, asObj, asArr, field, allM, loadTask, loadDef, dumpDef, dumpStrMap, asStr, asBool, asOptStr,
+    optStr, loadStrMap, decStatics, decAny, decList] at h2
+
+/-- **Job instance, rejected when encoding**: a static input with a refused node (bytes, set, frozenset, unknown class,
+integer beyond 64 bit, non-str key) in any task makes the writer fail. -/
+theorem c17_job_json_rejects (j : JobInst) (name : String) (t : TaskInst) (ht : (name, t) ∈ j.tasks)
+    (hr : RefusedStatics t.kw = true ∨ RefusedStatics t.ps = true) : ∃ e, dumpJob j = .error e := by
+  have htask : ∃ e, dumpTask t = .error e := by
+    unfold dumpTask
+    cases hkw : encStatics t.kw with
+    | error e => exact ⟨e, rfl⟩
+    | ok kw =>
+      cases hps : encStatics t.ps with
+      | error e => exact ⟨e, rfl⟩
+      | ok ps =>
+        exfalso
+        rcases hr with hr | hr
+        · obtain ⟨e, he⟩ := (encStatics_error_iff t.kw).mpr hr; rw [hkw] at he; cases he
+        · obtain ⟨e, he⟩ := (encStatics_error_iff t.ps).mpr hr; rw [hps] at he; cases he
+  have hts : ∀ ts : List (String × TaskInst), (name, t) ∈ ts → ∃ e, dumpTasks ts = .error e := by
+    intro ts
+    induction ts with
+    | nil => intro h; cases h
+    | cons p rest ih =>
+      intro hmem
+      obtain ⟨k, t'⟩ := p
+      simp only [dumpTasks]
+      cases hd : dumpTask t' with
+      | error e => exact ⟨e, rfl⟩
+      | ok jt =>
+        cases hmem with
+        | head => obtain ⟨e, he⟩ := htask; rw [hd] at he; cases he
+        | tail _ hm =>
+          obtain ⟨e, he⟩ := ih hm
+          exact ⟨e, by simp [he]⟩
+  obtain ⟨e, he⟩ := hts j.tasks ht
+  exact ⟨e, by simp [dumpJob, he]⟩
+
+/-! ### gateway requests and responses -/
+
+namespace JsonAux
+
+theorem loadSpec_dumpSpec (s : JobSpec) (d : J) (hl : SpecLossless s = true) (h : dumpSpec s = .ok d) :
+    loadSpec d = some s := by
+  cases s with
+  | mk b env job w hosts slurm =>
+  simp only [dumpSpec] at h
+  split at h
+  · cases h
+  · rename_i ji hji
+    split at h
+    · cases h
+    · rename_i wj hw
+      split at h
+      · cases h
+      · rename_i hj hh
+        cases h
+        rw [encInt_ok hw, encInt_ok hh]
+        cases job with
+        | none =>
+          simp only at hji
+          cases hji
+          simp [loadSpec, asObj, field, asOptStr_optStr, loadStrMap_dump, asInt, asBool]
+        | some j =>
+          simp only at hji
+          have hlj : JobLossless j = true := by simpa [SpecLossless] using hl
+          have hload := c17_job_json_never_alters_partial j ji hlj hji
+          -- a job document is an object, never `null`
+          have hobj : ∃ o, ji = .obj o := by
+            unfold dumpJob at hji
+            split at hji
+            · cases hji
+            · split at hji
+              · cases hji
+              · cases hji; exact ⟨_, rfl⟩
+          obtain ⟨o, rfl⟩ := hobj
+          simp [loadSpec, asObj, field, asOptStr_optStr, loadStrMap_dump, asInt, asBool, hload]
+
+/-- what `parse_request` makes of a SubmitJobRequest document around the job document `o` -/
+theorem loadReq_submit_doc (o : List (String × J)) :
+    loadReq (.obj [("job", .obj [("benchmark_name", .null), ("envvars", .obj []), ("job_instance", .obj o),
+      ("workers_per_host", .int 1), ("hosts", .int 1), ("use_slurm", .bool false)]), ("clazz", .str "SubmitJobRequest")])
+    = (loadJob (.obj o)).map (fun j' => GwReq.submit ⟨none, [], some j', 1, 1, false⟩) := by
+  cases h : loadJob (.obj o) <;>
+    simp [loadReq, asObj, field, asStr, loadSpec, asOptStr, loadStrMap, allM, asInt, asBool, h]
+
+end JsonAux
+
+/-- **Gateway request, never altered except ...**: whenever `request_response` produces a document, `parse_request`
+returns the very request -- class (through the `clazz` key) and every field -- provided the job instance of a
+SubmitJobRequest has no tuple / non-finite float / natively serialised scalar among its static inputs. -/
+theorem c17_gateway_request_never_alters_partial (r : GwReq) (d : J) (hl : ReqLossless r = true)
+    (h : dumpReq r = .ok d) : loadReq d = some r := by
+  cases r with
+  | submit s =>
+    simp only [dumpReq] at h
+    split at h
+    · cases h
+    · rename_i js hjs
+      cases h
+      have := loadSpec_dumpSpec s js (by simpa [ReqLossless] using hl) hjs
+      simp [loadReq, asObj, field, asStr, this]
+  | progress ids =>
+    simp only [dumpReq] at h
+    cases h
+    simp [loadReq, asObj, field, asStr, asArr, allM_map J.str asStr (fun _ => rfl)]
+  | result job ds =>
+    simp only [dumpReq] at h
+    cases h
+    simp [loadReq, asObj, field, asStr, loadDs_dumpDs]
+  | shutdown =>
+    simp only [dumpReq] at h
+    cases h
+    simp [loadReq, asObj, field, asStr]
+
+/-- **Gateway request, in the domain**: accepted and parsed back to itself. -/
+theorem c17_gateway_request_roundtrip (r : GwReq) (h : ReqNative r = true) :
+    ∃ d, dumpReq r = .ok d ∧ loadReq d = some r := by
+  have hex : ∃ d, dumpReq r = .ok d := by
+    cases r with
+    | submit s =>
+      cases s with
+      | mk b env job w hosts slurm =>
+      simp only [ReqNative, SpecNative, Bool.and_eq_true] at h
+      cases job with
+      | none =>
+        exact ⟨_, by simp only [dumpReq, dumpSpec, encInt_of_range h.1.2, encInt_of_range h.2]; rfl⟩
+      | some j =>
+        obtain ⟨d, hd, _⟩ := c17_job_json_roundtrip j (by simpa using h.1.1)
+        exact ⟨_, by simp only [dumpReq, dumpSpec, hd, encInt_of_range h.1.2, encInt_of_range h.2]; rfl⟩
+    | progress ids => exact ⟨_, rfl⟩
+    | result job ds => exact ⟨_, rfl⟩
+    | shutdown => exact ⟨_, rfl⟩
+  obtain ⟨d, hd⟩ := hex
+  refine ⟨d, hd, c17_gateway_request_never_alters_partial r d ?_ hd⟩
+  cases r with
+  | submit s =>
+    cases s with
+    | mk b env job w hosts slurm =>
+    cases job with
+    | none => rfl
+    | some j =>
+      simp only [ReqNative, SpecNative, Bool.and_eq_true] at h
+      have hn : JobNative j = true := by simpa using h.1.1
+      simp only [ReqLossless, SpecLossless, JobLossless]
+      simp only [JobNative, Bool.and_eq_true, List.all_eq_true] at hn ⊢
+      intro p hp
+      have := hn.1 p hp
+      simp only [TaskNative, TaskLossless, Bool.and_eq_true] at this ⊢
+      exact ⟨nativeStatics_lossless _ this.1, nativeStatics_lossless _ this.2⟩
+  | progress ids => rfl
+  | result job ds => rfl
+  | shutdown => rfl
+
+/-- The full clause FAILS for gateway requests: a SubmitJobRequest carrying `tupleJob` is sent without error and the
+gateway parses a job whose input is `[1, 2]`. -/
+theorem c17_gateway_request_full_fails : ¬ ∀ (r : GwReq) (d : J), dumpReq r = .ok d → loadReq d = some r := by
+  intro h
+  apply c17_job_json_full_fails
+  intro j d hd
+  -- a job document is an object, never `null`
+  have hobj : ∃ o, d = .obj o := by
+    unfold dumpJob at hd
+    split at hd
+    · cases hd
+    · split at hd
+      · cases hd
+      · cases hd; exact ⟨_, rfl⟩
+  obtain ⟨o, rfl⟩ := hobj
+  have hi : encInt 1 = .ok (.int 1) := by simp [encInt, inInt64Range]
+  have hr : dumpReq (.submit ⟨none, [], some j, 1, 1, false⟩) = .ok (.obj [("job", .obj [("benchmark_name", .null),
+      ("envvars", .obj []), ("job_instance", .obj o), ("workers_per_host", .int 1), ("hosts", .int 1),
+      ("use_slurm", .bool false)]), ("clazz", .str "SubmitJobRequest")]) := by
+    simp [dumpReq, dumpSpec, hd, hi, optStr, dumpStrMap]
+  have h2 := h _ _ hr
+  rw [JsonAux.loadReq_submit_doc] at h2
+  cases hl : loadJob (.obj o) with
+  | none => simp [hl] at h2
+  | some j' =>
+    simp only [hl, Option.map_some, Option.some.injEq, GwReq.submit.injEq, JobSpec.mk.injEq] at h2
+    rw [h2.2.2.1]
+
+/-- **Gateway response**: what `serialize_response` writes for a response that answers the request sent is parsed by
+`request_response` to the very response (all response fields are strings / Optional strings / str-keyed maps of strings:
+no partiality). -/
+theorem c17_gateway_response_roundtrip (q : GwReq) (r : GwRsp) (h : r.answers q = true) :
+    loadRsp q (dumpRsp r) = some r := by
+  cases r <;> cases q <;> simp [GwRsp.answers] at h <;>
+    simp [loadRsp, dumpRsp, asObj, field, asStr, asOptStr_optStr, loadStrMap_dump]
+
+/-- ... and a response of a class that does not belong to the request sent is refused ("mismatch between sent and
+received classes"), never taken for the expected one. -/
+theorem c17_gateway_response_class_checked (q : GwReq) (r : GwRsp) (h : r.answers q = false) :
+    loadRsp q (dumpRsp r) = none := by
+  cases r <;> cases q <;> simp [GwRsp.answers] at h <;>
+    simp [loadRsp, dumpRsp, asObj, field, asStr]
 
 open EkwVerif.Json in
--- the loader is not the constant function: a dump with a missing key, or a positional index that is
--- no integer, is refused
+-- the loaders are not constant functions: a dump with a missing key, a positional index that is no integer, a request
+-- whose class name is no Request are refused
 example : loadJob (.obj [("tasks", .obj []), ("edges", .arr []), ("serdes", .obj [])]) = none := rfl
 open EkwVerif.Json in
 example : loadEdge (.obj [("source", dumpDs ⟨"t", "o"⟩), ("sink_task", .str "u"),
     ("sink_input_kw", .null), ("sink_input_ps", .str "0")]) = none := rfl
+open EkwVerif.Json in
+example : loadReq (.obj [("error", .null), ("clazz", .str "ShutdownResponse")]) = none := rfl
+-- non-vacuity of the domain hypotheses
+example : JobNative ⟨[("t", ⟨⟨"m.f", none, [], [], [("o", "int")], false⟩, [("x", .list [.int (2 ^ 64 - 1), .float ⟨true, 15, -1⟩])], [("0", .dict [(.str "k", .none)])]⟩)],
+    [⟨⟨"t", "o"⟩, "u", none, some 7⟩], [], []⟩ = true := by decide
+example : JobLossless tupleJob = false := by decide
 
 end EkwVerif.Codec
